@@ -222,9 +222,23 @@ func (o *OracleC09) AtEnd(s *Sim) {
 					}
 				}
 			}
+			// The essence of the known lock: an HONEST validator is (pre)commit-locked in a view
+			// below the highest one - lost for every later view - and fewer than M honest
+			// validators are left that are not; progress would need the faulty ones' help.
+			honestLockedLower, honestUsable := 0, 0
+			for _, m := range o.live() {
+				if m.kind != FHonest || m.d == nil || m.d.BlockIndex != minH {
+					continue
+				}
+				if lv, isLocked := ownLockView(m); isLocked && lv < maxView {
+					honestLockedLower++
+				} else {
+					honestUsable++
+				}
+			}
 			if splitView && locked && free < mQ {
 				class = "stall_commit_lock_with_split_proposals"
-			} else if locked && lockView < maxView && willing < mQ && (!primAtTop || atTop < mQ) {
+			} else if locked && lockView < maxView && ((honestLockedLower > 0 && honestUsable < mQ) || (willing < mQ && (!primAtTop || atTop < mQ))) {
 				// Known protocol-level lock of dBFT 2.0 (neo-modules issue 792, discussed in
 				// the repository's formal-models/README): some validators are (pre)commit-
 				// locked in a lower view while the others have moved to a higher one; fewer
